@@ -68,6 +68,7 @@ package executor
 //@ trusted (*sync.RWMutex).RUnlock()
 //@   modifies nothing
 //@ func validate [C03,C07]
+//@   safe
 //@   modifies nothing
 //@   ghost rl = false
 //@   at! `validationRulesMu.RLock()` ghost rl = true
